@@ -61,11 +61,12 @@ def gen_check(drv, pid, cfg, info, seed, tier, viol_so_far):
     ev = dict(translator=info.get('gotrans'), functions=[dict(function='%s.%s' % (f['type'], f['method']), source='%s:%d-%d' % (f['file'], f['start_line'], f['end_line']),
                                                                sha256=f['sha256'], term='GenSrc.' + f['coq']) for f in mine],
               gen_proofs=cfg['gen_proofs'])
+    flat = [f for g in cfg['gen_proofs'] for f in (g if isinstance(g, list) else [g])]
     errs = [e for e in rep.get('errors', []) if pid in e.get('props', [])]
     if errs:
         # a selected function is missing or has left the subset the translator understands
         violation(drv, pid, dict(property=pid, seed=seed, tier=tier, case='gentrans', kind='proof-obligation', stage='gotrans',
-                                 theorem_or_correspondence='the Go -> MiniGo translator (tools/gotrans) can no longer translate a function that the theorems of %s are about; they are not re-checked against the current source' % ', '.join(cfg['gen_proofs']),
+                                 theorem_or_correspondence='the Go -> MiniGo translator (tools/gotrans) can no longer translate a function that the theorems of %s are about; they are not re-checked against the current source' % ', '.join(flat),
                                  translator_messages=['%s: %s.%s: %s' % (e['pos'], e['type'], e['method'], e['msg']) for e in errs]),
                   'no-failing-input-found')
         ev['translator_errors'] = errs
@@ -74,25 +75,48 @@ def gen_check(drv, pid, cfg, info, seed, tier, viol_so_far):
     failed = None
     out = ''
     with drv.Lock():
+        # the files are compiled in the listed order; a nested list is a group of files that do not depend on each
+        # other and are compiled at the same time.  A dependency whose .vo is newer than its sources is not recompiled;
+        # the property's own (last) file always is, to capture its Print Assumptions.
+        from concurrent.futures import ThreadPoolExecutor
         prev = [os.path.join(drv.COQ, x) for x in ('GenSrc.vo', 'GenLib.vo', 'GenRep.vo')]
-        for i, f in enumerate(cfg['gen_proofs']):
-            src, vo = os.path.join(drv.COQ, f), os.path.join(drv.COQ, f[:-2] + '.vo')
-            last = i == len(cfg['gen_proofs']) - 1
-            fresh = os.path.exists(vo) and all(os.path.getmtime(vo) >= os.path.getmtime(d) for d in prev + [src] if os.path.exists(d))
-            if not fresh or last:
-                rc, out = drv.run(['timeout', '900', 'coqc', '-R', drv.COQ, 'Verif', src], cwd=drv.COQ)
-                if rc != 0:
-                    failed = f
-                    if os.path.exists(vo):
-                        os.remove(vo)
-                    break
-            prev.append(vo)
+        groups = [g if isinstance(g, list) else [g] for g in cfg['gen_proofs']]
+
+        def compile_one(f):
+            return f, drv.run(['timeout', '900', 'coqc', '-R', drv.COQ, 'Verif', os.path.join(drv.COQ, f)], cwd=drv.COQ)
+
+        for gi, group in enumerate(groups):
+            last = gi == len(groups) - 1
+            todo = []
+            for f in group:
+                src, vo = os.path.join(drv.COQ, f), os.path.join(drv.COQ, f[:-2] + '.vo')
+                fresh = os.path.exists(vo) and all(os.path.getmtime(vo) >= os.path.getmtime(d) for d in prev + [src] if os.path.exists(d))
+                if not fresh or last:
+                    todo.append(f)
+            with ThreadPoolExecutor(max_workers=4) as ex:
+                for f, (rc, o) in ex.map(compile_one, todo):
+                    if rc != 0 and failed is None:
+                        failed, out = f, o
+                        vo = os.path.join(drv.COQ, f[:-2] + '.vo')
+                        if os.path.exists(vo):
+                            os.remove(vo)
+                    elif failed is None:
+                        out = o
+            if failed is not None:
+                break
+            prev += [os.path.join(drv.COQ, f[:-2] + '.vo') for f in group]
     ev['gen_proofs_s'] = round(time.time() - t0, 1)
     # the small-domain sweeps (generated code against model function) are evaluated on every run: they also cover
     # translated functions about which no lemma is proved yet, and they supply the failing input when a proof breaks
+    # identifiers for the replay texts: method and type names (>= 101, from GenSrc.v) and the canonical field
+    # identifiers 1..20 of MiniGo.v (their real names per struct are in the translator's report)
     ids = {}
     for mm in re.finditer(r'Notation id_(\w+) := (\d+)%positive', open(os.path.join(drv.COQ, 'GenSrc.v')).read()):
         ids[mm.group(2)] = mm.group(1)
+    for k, kind in enumerate(['int', 'bool', 'elem', 'slice', 'nil']):
+        for o in range(4):
+            ids[str(1 + k + 5 * o)] = 'f_%s%d' % (kind, o)
+    field_names = {t: ', '.join('%s=%s' % kv for kv in sorted(fs.items())) for t, fs in (rep.get('fields') or {}).items() if fs}
     outdir = os.path.join(drv.BUILD, pid)
     sw = os.path.join(outdir, 'gensweep.v')
     open(sw, 'w').write('From Verif Require Import Base MiniGo GenSrc GenRep GenSweep.\n'
@@ -113,6 +137,8 @@ def gen_check(drv, pid, cfg, info, seed, tier, viol_so_far):
         ev['failed'] = dict(file=failed, lemma=lemma, at=where)
     common = dict(property=pid, seed=seed, tier=tier, kind='generated-code',
                   lemma_that_no_longer_checks=lemma, at=where, coqc_output=out[-2500:] if failed else None,
+                  sweep_result=('sweeps_%s evaluated: %s disagreeing inputs' % (pid, count)) + (' - generated code and model agree on the whole small domain' if count == 0 else ''),
+                  field_names=field_names,
                   functions=[e['function'] + ' ' + e['source'] for e in ev['functions']],
                   rerun='./check %s' % pid)
     nv = 0
@@ -128,23 +154,23 @@ def gen_check(drv, pid, cfg, info, seed, tier, viol_so_far):
             txt = re.sub(r'(\d+)%positive', lambda x: ids.get(x.group(1), x.group(0)), txt)
             nv += 1
             violation(drv, pid, dict(common, case='gen%d' % k,
-                                     explanation='the MiniGo term generated from the current Go source and the model function the theorems are about disagree on this input (found by the exhaustive small-domain sweep coq/GenSweep.v: sweeps_%s; %d disagreeing inputs in all). d_method = the method, d_recv = the receiver before the call, d_args = the arguments, d_model = what the model says (result, receiver afterwards), d_generated = what the generated code does' % (pid, count),
+                                     explanation='the MiniGo term generated from the current Go source and the model function the theorems are about disagree on this input (found by the exhaustive small-domain sweep coq/GenSweep.v: sweeps_%s; %d disagreeing inputs in all). d_method = the method, d_recv = the receiver before the call, d_args = the arguments, d_model = what the model says (ORet (result, receiver afterwards) / OPanic receiver-left-unchanged), d_generated = what the generated code does (OPanic r: it panics and leaves the receiver as r)' % (pid, count),
                                      failing_input=txt))
     if failed is None:
         txt = ' | '.join(l.rstrip() for l in out.split('\n') if l.strip())
-        names = re.findall(r'Print Assumptions\s+(\w+)', open(os.path.join(drv.COQ, cfg['gen_proofs'][-1])).read())
-        ev['print_assumptions'] = 'Print Assumptions of %s (in order %s): %s' % (cfg['gen_proofs'][-1], ', '.join(names), txt)
+        names = re.findall(r'Print Assumptions\s+(\w+)', open(os.path.join(drv.COQ, flat[-1])).read())
+        ev['print_assumptions'] = 'Print Assumptions of %s (in order %s): %s' % (flat[-1], ', '.join(names), txt)
         bad = [l for l in out.split('\n') if l.strip() and 'Closed under the global context' not in l]
         if bad or not names:
             nv += 1
             violation(drv, pid, dict(property=pid, seed=seed, tier=tier, case='genproof', kind='proof-obligation',
-                                     theorem_or_correspondence='%s compiles but its theorems are not closed under the global context' % cfg['gen_proofs'][-1],
+                                     theorem_or_correspondence='%s compiles but its theorems are not closed under the global context' % flat[-1],
                                      output=out[-3000:]), 'no-failing-input-found')
     elif nv == 0 and viol_so_far == 0:
         # a proof about the generated code no longer checks and no input was found on which code and model differ
         nv = 1
         violation(drv, pid, dict(common, case='genproof',
-                                 theorem_or_correspondence='the lemma %s of %s about the code generated from the current Go source no longer checks; the small-domain sweeps (sweeps_%s) and the correspondence run found no input on which generated code and model differ' % (lemma, failed, pid),
+                                 theorem_or_correspondence='the lemma %s (%s) about the code generated from the current Go source no longer checks; the exhaustive small-domain sweeps (sweeps_%s: %d disagreeing inputs, i.e. generated code and model agree on the whole small domain) and the correspondence run found no input on which code and model differ: the property is no longer shown to hold for the code as it is now, rather than shown to fail' % (lemma, where, pid, count),
                                  sweep_output=sout[-800:]), 'no-failing-input-found')
     else:
         nv += 1
